@@ -275,18 +275,23 @@ pub fn process(
             } else {
                 (op_args[1].get_r8(constants)?, op_args[0].get_expr()?)
             };
-            opcode |= r.number() << 4;
-
             let k = k.run(constants)?;
 
             if constants.get_device().is_avr8l() {
-                if k < 40 || k > 0xbf {
+                if r.number() < 16 {
+                    bail!("{:?} can only use a high register (r16 - r31)", op);
+                }
+                opcode |= (r.number() & 0x0f) << 4;
+
+                if k < 0x40 || k > 0xbf {
                     bail!("Address out of range (0x40 <= k <= 0xbf)");
                 }
 
                 let k = k as u16;
                 opcode |= (k & 0x40) << 2 | (k & 0x30) << 5 | (k & 0x0f);
             } else {
+                opcode |= r.number() << 4;
+
                 if k < 0 || k > 65535 {
                     bail!("Address out of range (0 <= k <= 65535)");
                 }
